@@ -19,6 +19,8 @@ Static clauses decided (necessary conditions of C18):
         the result is returned only after commit().
  GEN    in the generator wrapper commit() is reachable only inside `except StopIteration`; every other exception
         reaches rollback_and_reraise.
+ MULTI  a session spanning several databases commits none of them when the flush of any of them fails: the module-level commit()
+        flushes every cache before the first commit and rolls everything back on a flush error (rules shared with C17-ABORT).
  BOTTLE the plug-in passes its allowed_exceptions predicate to db_session and the predicate excludes HTTPError.
 """
 NOT_DECIDED = "what Flask/Bottle pass to the hooks at run time; behaviour of commit()/rollback() themselves"
@@ -228,6 +230,9 @@ def run(ctx):
     ctx.ob('C18-GEN.other-exceptions-roll-back', wi, inter[0].ast, ok,
            '' if ok else 'an exception of the generator body can leave wrapped_interact without rollback_and_reraise')
 
+    # ------------------------------------------------------------- MULTI (shared with C17): nothing is committed when the session's flush fails
+    from . import C17
+    C17.global_commit_rules(ctx, P='C18-MULTI')
     # ------------------------------------------------------------- BOTTLE
     bp = repo.fn('pony.orm.integration.bottle_plugin', 'PonyPlugin.apply')
     kw = None
